@@ -203,6 +203,10 @@ var fieldCorpus = map[byte][]string{
 	0x1F: {"ok", "not authorized", "bad user name or password", "quota exceeded", "Success", "error: %v"},
 }
 
+// foreignOpenings: first four bytes of other protocols that can be the first
+// four bytes of a valid MQTT acknowledgement.
+var foreignOpenings = []string{"PUT ", "POST", "PATC", "PRI ", "PROX", "PING", "PASS", "PORT", "put ", "post", "ping", "pass", "prox", "bye ", "@ECH"}
+
 // Packet draws one abstract packet.
 func Packet(t *sim.Tape, cfg Cfg) *ref.AP {
 	g := &G{T: t, Thorough: cfg.Thorough, big: 1}
@@ -351,6 +355,27 @@ func (g *G) ofType(typ byte, cfg *Cfg) *ref.AP {
 		}
 		if cfg.Spec {
 			a.Form = t.Int(3)
+		}
+		if t.Bool(1, 30) {
+			// A frame whose first four bytes spell the opening of ANOTHER protocol (code
+			// that sniffs for plain-text HTTP, the PROXY protocol header, an SSH or SMTP
+			// banner on an MQTT port): the fixed header of an acknowledgement is an
+			// ASCII character ('@' PUBACK, 'P' PUBREC, 'b' PUBREL, 'p' PUBCOMP), the
+			// remaining length the second, the packet identifier the third and fourth.
+			var cands []string
+			for _, m := range foreignOpenings {
+				if m[0] == typ<<4|ref.ReservedFlags(typ) {
+					cands = append(cands, m)
+				}
+			}
+			if len(cands) > 0 {
+				m := cands[t.Int(len(cands))]
+				rl := int(m[1])
+				a.PacketID = uint16(m[2])<<8 | uint16(m[3])
+				a.Form = 2
+				// body = identifier(2) + reason(1) + property length(1) + one reason string property(3+n)
+				a.Props = []ref.Prop{{ID: 0x1F, B: g.str0(rl - 7)}}
+			}
 		}
 	case ref.Subscribe:
 		a.PacketID = g.U16()
